@@ -791,6 +791,16 @@ func convertToExp(parser *syntax.Parser, split bool, val json.Marshaler,
 			if err := json.Unmarshal(val, &jv); err != nil {
 				return nil, err
 			}
+			// The value is a collection of things of the parameter's
+			// type, not a value of that type.
+			if b := bytes.TrimSpace(jv.Split); len(b) > 0 {
+				if b[0] == '[' {
+					tname.ArrayDim++
+				} else if b[0] == '{' && tname.MapDim == 0 {
+					tname.MapDim = tname.ArrayDim + 1
+					tname.ArrayDim = 0
+				}
+			}
 			exp, err := convertToExp(parser, false,
 				jv.Split, tname, lookup)
 			if n, ok := exp.(*syntax.NullExp); ok {
